@@ -668,6 +668,53 @@ async def run_list_case(fake, path, recursive, script):
     return ys, end, session["requests"]
 
 
+def listing_oracle(ys, end, reqs, script, count=lambda k, n: None):
+    """property oracle for one Client.list() run on the implementation's outputs: list of (what, key, extra)"""
+    out = []
+    if end == "HANG":
+        return [("Client.list() did not finish within 10 s on a finite scripted server", "c19-lister-hang", {})]
+    endname = "done" if end == "done" else type(end).__name__
+    if end != "done" and not isinstance(end, (ValueError, errors.StatusCodeError)):
+        key = "c19-mlsd-no-type-fact-keyerror" if isinstance(end, KeyError) and end.args == ("type",) else f"c19-lister-class:{endname}"
+        out.append((f"Client.list() raised {endname} for a listing line (documented: ValueError)", key, {}))
+    for p, info in ys:
+        if not (isinstance(p, pathlib.PurePosixPath) and isinstance(info, dict) and "type" in info):
+            out.append(("Client.list() yielded an ill-typed entry", "c19-lister-illtyped", {}))
+    n_served = sum(1 for r in reqs if r.startswith(b"MLSD")) - (1 if isinstance(end, errors.StatusCodeError) else 0)
+    consumed = script[: max(0, n_served)]
+    oracle_client = aioftp.Client()
+    if end == "done":
+        # every line of a completed listing must be accounted for: yielded, or an explicit '.' / '..' entry
+        must_yield = legit_dots = 0
+        for lm, payload in consumed:
+            for l in split_lf(payload):
+                if len(l.rstrip(b"\n")) > DATA_LIMIT:
+                    pr, pex = ("exc", "ValueError"), ValueError()
+                else:
+                    pr, pex = call(oracle_client.parse_list_line if lm else oracle_client.parse_mlsx_line, l)
+                if pex is not None:
+                    out.append((f"a line on which the line parser raises {pr[1]} was swallowed by a Client.list() that completed normally",
+                                "c19-line-parser-exception-swallowed", {"line": list(l[:200])}))
+                elif str(pr[1][0]) in (".", ".."):
+                    nameless = (raw_name_mlsx(l) is None) if not lm else not has_dot_token(l)
+                    if nameless and not lm:
+                        out.append(("an MLSD line without a pathname (no SP, or nothing after it) was silently dropped by Client.list()",
+                                    "c19-mlsd-line-without-name-dropped", {"line": list(l[:200])}))
+                    elif nameless:
+                        out.append(("a LIST line that names neither '.' nor '..' was silently dropped by Client.list() (its name column is empty)",
+                                    "c19-list-line-without-name-dropped", {"line": list(l[:200])}))
+                    else:
+                        legit_dots += 1
+                else:
+                    must_yield += 1
+        if len(ys) > must_yield:
+            out.append(("Client.list() yielded an entry for a '.' / '..' line", "c19-dot-entry-yielded", {}))
+        elif len(ys) < must_yield:
+            out.append(("Client.list() completed normally but dropped a line that parses to a proper name", "c19-line-dropped", {}))
+        count("lister:dot-lines-skipped", legit_dots)
+    return out
+
+
 def lister_cases(ctx, n):
     rng = ctx.rng
     cases = []
@@ -742,34 +789,16 @@ def lister_cases(ctx, n):
     for (path, rec_flag, script), o, (ys, end, reqs), marg in zip(cases, outs, results, margs):
         ctx.case(("list", path, rec_flag, tuple(script)))
         ctx.traces_impl += 1
-        cur0 = pathlib.PurePosixPath(path)
         total_bytes = sum(len(p) for _, p in script)
         # ---- property oracle on the implementation
         rep = {"path": path, "recursive": rec_flag, "script": [[lm, list(p)] for lm, p in script]} if total_bytes < 600 else {"path": path, "recursive": rec_flag, "script": "large"}
+        for what, key, extra in listing_oracle(ys, end, reqs, script, ctx.count):
+            ctx.violation(what, {"key": key, **extra, **rep})
         if end == "HANG":
-            ctx.violation("Client.list() did not finish within 10 s on a finite scripted server", {"key": "c19-lister-hang", **rep})
             continue
         endname = "done" if end == "done" else type(end).__name__
         ctx.count("lister:end:" + endname)
-        if end != "done" and not isinstance(end, (ValueError, errors.StatusCodeError)):
-            key = "c19-mlsd-no-type-fact-keyerror" if isinstance(end, KeyError) and end.args == ("type",) else f"c19-lister-class:{endname}"
-            ctx.violation(f"Client.list() raised {endname} for a listing line (documented: ValueError)", {"key": key, **rep})
-        n_served = sum(1 for r in reqs if r.startswith(b"MLSD")) - (1 if isinstance(end, errors.StatusCodeError) else 0)
-        consumed = script[: max(0, n_served)]
         served_dirs = [r for r in reqs if r.startswith(b"MLSD")]
-        for p, info in ys:
-            if not (isinstance(p, pathlib.PurePosixPath) and isinstance(info, dict) and "type" in info):
-                ctx.violation("Client.list() yielded an ill-typed entry", {"key": "c19-lister-illtyped", **rep})
-        if end == "done":
-            lines = [(lm, l) for lm, payload in consumed for l in split_lf(payload)]
-            mlsd_nameless = [l for lm, l in lines if not lm and raw_name_mlsx(l) is None]
-            if mlsd_nameless:
-                ctx.violation("an MLSD line without a pathname (no SP, or nothing after it) was silently dropped by Client.list()",
-                              {"key": "c19-mlsd-line-without-name-dropped", "line": list(mlsd_nameless[0][:200]), **rep})
-            explain = sum(1 for lm, l in lines if (has_dot_token(l) if lm else (raw_name_mlsx(l) is None or str(pathlib.PurePosixPath(raw_name_mlsx(l))) in (".", ".."))))
-            if len(ys) + explain < len(lines):
-                ctx.violation("a LIST line that names neither '.' nor '..' was silently dropped by Client.list() (its name column is empty)",
-                              {"key": "c19-list-line-without-name-dropped", **rep})
         # ---- model vs implementation
         m_end = "done" if o[0] == [0] else ("FUEL" if o[0] == [-2] else EXC.get(o[0][1], "?"))
         m_ys = [(sx.txt(p), {sx.txt(k): sx.txt(v) for k, v in d}) for p, d in o[1]]
@@ -839,6 +868,13 @@ async def live_server(ctx, payloads):
         async with witness.upload_stream("w/f.txt") as st:
             await st.write(b"payload")
         want = sorted(str(p) for p, _ in await witness.list("/", recursive=True))
+        # the model's prediction: the first complete (or over-long) line on which parse_command raises ends the session
+        predicted = {}
+        for name, payload, _ in payloads:
+            lines = [l for l in split_lf(payload) if l.endswith(b"\n") or len(l) > DATA_LIMIT]
+            outs = ctx.model([(12, [0, DATA_LIMIT, l]) for l in lines]) if lines else []
+            predicted[name, payload] = any(o[0] == -1 and o[2] == 2 for o in outs)
+            ctx.count("hostile:model-predicts-session-ends", int(predicted[name, payload]))
         for name, payload, expect_drop in payloads:
             facts["sessions"] += 1
             ctx.count("hostile:" + name)
@@ -866,8 +902,8 @@ async def live_server(ctx, payloads):
                 closed_by_server = True
             if closed_by_server:
                 facts["ended_by_server"] += 1
-            if expect_drop is True and not closed_by_server:
-                ctx.disagree("server-reaction", rep, "session ended by the dispatcher's catch-all", "session still open")
+            if predicted[name, payload] and not closed_by_server:
+                ctx.disagree("server-reaction", rep, "model: parse_command raises on a line of this payload, the dispatcher's catch-all ends the session", "session still open")
             w.close()
             # the witness is undisturbed
             try:
@@ -992,11 +1028,10 @@ def replay(ctx, data):
         ys, end, reqs = _replay_list(r)
         lines = [l for lm, p in r["script"] for l in split_lf(bytes(p))]
         print("Client.list():", "yielded", [str(p) for p, _ in ys], "ended", end if end in ("done", "HANG") else repr(end), "for lines", lines)
-        if end == "HANG":
-            return False
-        if end != "done":
-            return isinstance(end, (ValueError, errors.StatusCodeError))
-        return len(ys) + sum(1 for l in lines if has_dot_token(l) or b" ." in l) >= len(lines)
+        bad = listing_oracle(ys, end, reqs, [(bool(lm), bytes(p)) for lm, p in r["script"]])
+        for what, k, _ in bad:
+            print("  oracle:", k, "-", what)
+        return not bad
     if "line" in r and key.startswith(("c19-list-line", "c19-unix", "c19-windows", "c19-mlsx")):
         c = aioftp.Client(encoding="utf-8" if r.get("encoding", 0) == 0 else "latin-1")
         res, ex = call(c.parse_list_line, bytes(r["line"]))
@@ -1007,11 +1042,15 @@ def replay(ctx, data):
 
 
 def known(ctx):
+    """replay every listed finding of this property on the real code: it must still fail in the listed way"""
     for f in ctx.kf:
         rp = KNOWN_REPLAYS.get(f["id"])
         if rp is None:
             continue
-        if not replay(ctx, {"replay": rp}):
+        ys, end, reqs = _replay_list(rp)
+        keys = [k for _, k, _ in listing_oracle(ys, end, reqs, [(bool(lm), bytes(p)) for lm, p in rp["script"]])]
+        if rp["key"] in keys:
             ctx.known_reproduced(f["id"], f["what"])
         else:
-            ctx.obligation_broken("known-finding-stale", f"{f['id']} no longer reproduces on the implementation: remove it and the _refuted theorem")
+            ctx.obligation_broken("known-finding-stale", f"{f['id']} no longer reproduces on the implementation (oracle says {keys}): "
+                                  "remove it from known_findings.json together with its _refuted theorem")
